@@ -52,25 +52,25 @@ type EventObs struct {
 
 // StepObs is everything the monitors see about one driver step.
 type StepObs struct {
-	Index    int
-	Kind     string // message kind label (generator's intent)
-	Desc     string
-	Peer     int  // index into Session.Peers (-1: none)
-	IsSync   bool // sender was the sync peer BEFORE the step
-	Current  bool // client considered its block headers current BEFORE the step
-	Batch    []*chaingen.Node
-	Hdrs     []*wire.BlockHeader
-	Pre      []wire.BlockHeader // stored chain before
-	Post     []wire.BlockHeader // stored chain after
-	PreF     []chainhash.Hash   // stored filter-header chain before
-	PostF    []chainhash.Hash   // after
-	Events   []EventObs
-	Disc     bool // the sender was disconnected by the client during the step
+	Index   int
+	Kind    string // message kind label (generator's intent)
+	Desc    string
+	Peer    int  // index into Session.Peers (-1: none)
+	IsSync  bool // sender was the sync peer BEFORE the step
+	Current bool // client considered its block headers current BEFORE the step
+	Batch   []*chaingen.Node
+	Hdrs    []*wire.BlockHeader
+	Pre     []wire.BlockHeader // stored chain before
+	Post    []wire.BlockHeader // stored chain after
+	PreF    []chainhash.Hash   // stored filter-header chain before
+	PostF   []chainhash.Hash   // after
+	Events  []EventObs
+	Disc    bool // the sender was disconnected by the client during the step
 	// WriteFailed: the harness made the block header store's WriteHeaders
 	// fail during this step (an injected database error: nothing written).
 	WriteFailed bool
-	Panic    string
-	ClockNow time.Time
+	Panic       string
+	ClockNow    time.Time
 	// Fault: the injected transient I/O fault that fired while the client
 	// handled this step ("" = none); FaultShape: the same without its position.
 	// Crash: the client panicked in a step in which a fault had fired; this is
@@ -130,7 +130,7 @@ type Session struct {
 	// LastFaultReached: the most recently armed fault fired, or (a fault
 	// positioned after an event) the event it waits for was seen.
 	LastFaultReached bool
-	faulty      bool
+	faulty           bool
 }
 
 // Config of a session.
@@ -522,6 +522,8 @@ type hookedBlockStore struct {
 	headerfs.BlockHeaderStore
 	mu             sync.Mutex
 	afterAncestors func()
+	afterRead      func() // armed: runs once, after the readLeft-th read call returned
+	readLeft       int
 	failWrite      bool // armed: the next WriteHeaders fails
 	failed         bool // a WriteHeaders call was failed since takeFailed
 }
@@ -556,6 +558,50 @@ func (h *hookedBlockStore) setAfterAncestors(f func()) {
 	h.mu.Unlock()
 }
 
+// armAfterRead makes the k-th read call (ChainTip, FetchHeaderByHeight,
+// FetchHeader, FetchHeaderAncestors) the block manager makes from now on run f
+// right after the real call returned (f nil disarms). One-shot: the boundary
+// between two store reads of the client is a place where the real scheduler
+// can run the block handler.
+func (h *hookedBlockStore) armAfterRead(k int, f func()) {
+	h.mu.Lock()
+	h.afterRead, h.readLeft = f, k
+	h.mu.Unlock()
+}
+
+func (h *hookedBlockStore) readDone(err error) {
+	h.mu.Lock()
+	var f func()
+	if h.afterRead != nil {
+		h.readLeft--
+		if h.readLeft <= 0 {
+			f, h.afterRead = h.afterRead, nil
+		}
+	}
+	h.mu.Unlock()
+	if f != nil && err == nil {
+		f()
+	}
+}
+
+func (h *hookedBlockStore) ChainTip() (*wire.BlockHeader, uint32, error) {
+	hdr, height, err := h.BlockHeaderStore.ChainTip()
+	h.readDone(err)
+	return hdr, height, err
+}
+
+func (h *hookedBlockStore) FetchHeaderByHeight(height uint32) (*wire.BlockHeader, error) {
+	hdr, err := h.BlockHeaderStore.FetchHeaderByHeight(height)
+	h.readDone(err)
+	return hdr, err
+}
+
+func (h *hookedBlockStore) FetchHeader(hash *chainhash.Hash) (*wire.BlockHeader, uint32, error) {
+	hdr, height, err := h.BlockHeaderStore.FetchHeader(hash)
+	h.readDone(err)
+	return hdr, height, err
+}
+
 func (h *hookedBlockStore) FetchHeaderAncestors(n uint32, stop *chainhash.Hash) ([]wire.BlockHeader, uint32, error) {
 	hdrs, start, err := h.BlockHeaderStore.FetchHeaderAncestors(n, stop)
 	h.mu.Lock()
@@ -564,5 +610,6 @@ func (h *hookedBlockStore) FetchHeaderAncestors(n uint32, stop *chainhash.Hash) 
 	if f != nil && err == nil {
 		f()
 	}
+	h.readDone(err)
 	return hdrs, start, err
 }
